@@ -71,15 +71,16 @@ CHECKS['C13'] = dict(
     design_ref='5/C13')
 CHECKS['C10'] = dict(
     category='other',
-    technique='call-graph reachability, derived-from taint, dominance and read-before-reassign path queries on Two-Way MIR',
+    technique='call-graph reachability, derived-from taint, dominance and read-before-reassign path queries on Two-Way MIR; the shift-memory transfer obligations (MEMO) come from the E2 abstract interpreter',
     text="Decides confinement of the heuristics and the structure that makes them invisible: TAINT-R (ranker reachable "
          "only from construction, rank values only feed comparisons), TAINT-P (PrefilterConfig only selects Two-Way "
          "with/without prefilter), PRE-REGION (no match is reported from prefilter-controlled code; window bound "
          "re-checked after a prefilter jump), SHIFT-PAIR (after any change of pos the Two-Way memory `shift` is "
-         "re-assigned before it is read; non-zero only after a period step), PRE-ADAPT (adaptive state consulted before "
+         "re-assigned before it is read -- in either statement order), MEMO (per loop iteration: shift == 0, or the last "
+         "move of pos was exactly +period and shift + period <= needle.len(); decided by E2 on the abstract state), PRE-ADAPT (adaptive state consulted before "
          "each prefilter call). Each is a necessary condition; the semantic core (correct prefilter + full "
          "re-verification = same result) rests on C11 and on Two-Way's correctness, which is not decided.",
-    note=TB + "user variable names pos/shift are resolved through MIR debug info (fail closed if renamed).",
+    note=TB + "pos/shift are identified structurally (the local combined with critical_pos by cmp::max; the self-updated position), with MIR debug names as fallback.",
     design_ref='5/C10')
 
 CHECKS['C05'] = dict(
